@@ -15,15 +15,16 @@ class ProjectionError(Exception):
 class Projector:
     """real task parameters -> specification task id, by the strain values they carry."""
 
-    def __init__(self, inst, base_strain):
+    def __init__(self, inst, base_strain, rtol=1e-9, atol=1e-11):
         self.inst = inst
+        self.rtol, self.atol = rtol, atol
         self.base = numpy.asarray(base_strain, dtype=float)
         rows = self.base.sum(axis=1)
         self.vals = {vid: (self.base @ c) / rows for vid, c in sched.value_coeffs(inst).items()}
 
     def value_id(self, arr):
         arr = numpy.asarray(arr, dtype=float)
-        hits = [vid for vid, a in self.vals.items() if a.shape == arr.shape and numpy.allclose(a, arr, rtol=1e-9, atol=1e-11)]
+        hits = [vid for vid, a in self.vals.items() if a.shape == arr.shape and numpy.allclose(a, arr, rtol=self.rtol, atol=self.atol)]
         if len(hits) != 1:
             raise ProjectionError(f"strain value matches {len(hits)} specification values")
         return hits[0]
@@ -32,7 +33,7 @@ class Projector:
         from cij.util import ElasticModulusCalculationType as CT
         if p.calc_type == CT.SHEAR:
             strain, key = p.params
-            if not numpy.allclose(numpy.asarray(strain, dtype=float), self.base, rtol=1e-9, atol=1e-11):
+            if not numpy.allclose(numpy.asarray(strain, dtype=float), self.base, rtol=self.rtol, atol=self.atol):
                 raise ProjectionError("shear task outside the base frame")
             return "S%d%d" % key.voigt
         v, w = self.value_id(p.params[0]), self.value_id(p.params[1])
@@ -43,14 +44,14 @@ class Projector:
         return f"O{v}_{w}"
 
 
-def record(inst, duck, strain, keys):
+def record(inst, duck, strain, keys, rtol=1e-9, atol=1e-11):
     """Run resolve/calculate/get_* on the real class with recording.  -> (events, tasklist, results, info)"""
     import cij.core.tasks as T
     from cij.util import _trace
 
     if not _trace._ENABLED:
         raise MachineryError("CIJ_VERIF_TRACE hooks are not enabled in this process")
-    proj = Projector(inst, strain)
+    proj = Projector(inst, strain, rtol, atol)
     raw, looks = [], []
     tl = T.PhononContributionTaskList(duck)
     store_name = {id(tl.modulus_isothermal_values): "iso", id(tl.modulus_adiabatic_values): "adi"}
